@@ -4,7 +4,7 @@
    test (code 2). *)
 From Coq Require Import List NArith ZArith Bool String.
 From GQL Require Export Exec.Syntax Validate.VSyntax.
-From GQL Require Import Base.Bytes Validate.Overlap Validate.Cost.
+From GQL Require Import Base.Bytes Validate.Overlap Validate.Rules Validate.Cost.
 Import ListNotations.
 Open Scope N_scope.
 
@@ -13,6 +13,8 @@ Inductive c19case :=
     (* counters after ValidateDocument with the overlap rule alone *)
 | PlanCase (S : schema) (W : wdoc) (ctr : list N)
     (* counters after PlanQuery *)
+| CycleCase (W : wdoc) (ctr : list N)
+    (* counters after ValidateDocument with NoFragmentCycles alone *)
 | GrowthCase (points : list (N * list N))
     (* (n, counters) of one family at successive sizes *)
 | RuntimeCase (points : list (N * (N * N)))
@@ -48,9 +50,12 @@ Definition check (c : c19case) : N :=
     (* proved bounds (C19_memo_bound) and a cubic bound on the field comparisons *)
     if F * F <? frb then 2
     else if 2 * sets * (F + 1) <? ffb then 2
-    else if size * size * size + 100 <? ctr_at 2 ctr then 2
+    (* C19_find_conflict_bound: calls <= M*M*(visited sets + memo entries) *)
+    else if (let m := N.of_nat (max_set_size S0 D) in
+             m * m * (N.of_nat (List.length (all_sets S0 D)) + ffb + 2 * frb)) <? ctr_at 2 ctr then 2
     else if negb (frb =? N.of_nat (frfr_bodies S0 D fuel)) then 1
     else if negb (ffb =? N.of_nat (ff_bodies S0 D fuel)) then 1
+    else if negb (ctr_at 2 ctr =? N.of_nat (fc_calls S0 D fuel)) then 1
     else 0
   | PlanCase S0 W ctr =>
     let D := erase W in
@@ -60,12 +65,18 @@ Definition check (c : c19case) : N :=
     else if 4 * size * size * size + 100 <? ctr_at 0 ctr then 2
     else if negb (calls =? p_calls (plan_doc S0 D true fuel)) then 1
     else 0
+  | CycleCase W ctr =>
+    (* C19_cycle_search_bound: every fragment is descended into at most once *)
+    let calls := ctr_at 7 ctr in
+    if N.of_nat (List.length (w_frags W)) <? calls then 2
+    else if negb (calls =? N.of_nat (cycle_search_calls W)) then 1
+    else 0
   | GrowthCase pts =>
     (* doubling n may multiply a count by at most 8 (degree 3), with slack for constants *)
     let fix go (l : list (N * list N)) : N :=
         match l with
         | (n1, c1) :: (((n2, c2) :: _) as r) =>
-          if existsb (fun i => 10 * ctr_at i c1 + 64 <? ctr_at i c2) [0; 1; 2; 3; 4; 5; 6]%nat
+          if existsb (fun i => 10 * ctr_at i c1 + 64 <? ctr_at i c2) [0; 1; 2; 3; 4; 5; 6; 7]%nat
           then 2 else go r
         | _ => 0
         end in
